@@ -551,11 +551,20 @@ func retFacts(call *ssa.Call, rt *ssa.Return, facts *factSet) *factSet {
 	nf := facts
 	// functions with defers spill their results into locals right before returning
 	res := func(i int) ssa.Value { return blockLocalValue(rt.Results[i]) }
+	// a value that is merely forwarded (return c.tryReconnect(ctx)) keeps what the path knows about it
+	known := func(v ssa.Value) int {
+		if k := facts.get(v); k >= 1 && k <= 4 {
+			return k
+		}
+		return 0
+	}
 	if len(rt.Results) == 1 {
 		if k := constKind(res(0)); k != 0 {
 			nf = nf.add(call, k)
 		} else if isFreshErrorValue(res(0)) || derefBefore(res(0), rt) {
 			nf = nf.add(call, 4)
+		} else if k := known(res(0)); k != 0 {
+			nf = nf.add(call, k)
 		}
 	} else if refs := call.Referrers(); refs != nil {
 		for _, ref := range *refs {
@@ -564,6 +573,8 @@ func retFacts(call *ssa.Call, rt *ssa.Return, facts *factSet) *factSet {
 					nf = nf.add(ex, k)
 				} else if isFreshErrorValue(res(ex.Index)) || derefBefore(res(ex.Index), rt) {
 					nf = nf.add(ex, 4)
+				} else if k := known(res(ex.Index)); k != 0 {
+					nf = nf.add(ex, k)
 				}
 			}
 		}
